@@ -247,7 +247,134 @@ impl Gen {
     // programs, sequences, chains
     // --------------------------------------------------------------------------------------------
 
+    /// Closures with DIFFERENT numbers of captures that tail-call each other by name and then
+    /// recurse on themselves, reading captures / the parameter after the recursion:
+    ///   c1 = …, c2 = …, g = #'int { | [$, 1] cmp =-1 => [$, c1, c2] | … [$, 1] sub ^ },
+    ///   f = #'int { [$, k] add ^g }, n f
+    fn tail_chain_program(&mut self) -> Program {
+        let mut steps: Vec<Chain> = vec![];
+        let mut env = Env::default();
+        let cx = Cx { param: None, rec: false };
+        // some locals first (slot numbers vary)
+        let nloc = self.rng.usize(4);
+        let mut caps: Vec<String> = vec![];
+        for _ in 0..nloc {
+            let name = self.var_name(&env, &[]);
+            let v = self.rng.range(2, 40);
+            steps.push(Chain { pat: Some(Pat::Bind(name.clone())), terms: vec![lit_int(v)] });
+            env.bind(&name, Ty::Int, St::Definite);
+            caps.push(name);
+        }
+        // G: count-down closure; captures a random subset (0..=nloc) of the locals
+        let mut gcaps = caps.clone();
+        self.rng.shuffle(&mut gcaps);
+        let ng = self.rng.usize(gcaps.len() + 1);
+        gcaps.truncate(ng);
+        let tuple_param = self.chance(1, 3);
+        let (gp, base_acc) = if tuple_param {
+            (Ty::Tup(None, vec![(None, Ty::Int), (None, Ty::Int)]), vec![Acc::Index(0)])
+        } else {
+            (Ty::Int, vec![])
+        };
+        let guard = Chain::new(vec![
+            pair(vec![Term::Access(Src::Param, base_acc.clone())], vec![lit_int(1)]),
+            builtin("integer_compare"),
+            Term::Match(Pat::Lit(Lit::Int(-1))),
+        ]);
+        // base case: read parameter and captures AFTER the recursion steps
+        let mut base_fields = vec![Field::Val(None, Chain::new(vec![Term::Access(Src::Param, vec![])]))];
+        for c in &gcaps {
+            base_fields.push(Field::Val(None, Chain::new(vec![Term::Access(Src::Var(c.clone()), vec![])])));
+        }
+        let base = vec![Chain::new(vec![Term::Tuple(TupName::Anon, base_fields)])];
+        let k = self.rng.range(1, 2);
+        let dec = vec![pair(vec![Term::Access(Src::Param, base_acc.clone())], vec![lit_int(k)]), builtin("integer_subtract")];
+        let rec_terms = if tuple_param {
+            // second component: accumulates a capture or the old second component
+            let second = if !gcaps.is_empty() && self.chance(1, 2) {
+                vec![pair(vec![Term::Access(Src::Param, vec![Acc::Index(1)])], vec![Term::Access(Src::Var(gcaps[0].clone()), vec![])]), builtin("integer_add")]
+            } else {
+                vec![Term::Access(Src::Param, vec![Acc::Index(1)])]
+            };
+            vec![pair(dec, second), Term::Tail(None)]
+        } else {
+            let mut t = dec;
+            t.push(Term::Tail(None));
+            t
+        };
+        let mut gbranches = vec![Branch { cond: vec![guard], cons: Some(base) }];
+        if self.chance(1, 3) {
+            // an extra guarded branch that binds before recursing
+            let b = self.var_name(&env, &caps);
+            gbranches.push(Branch {
+                cond: vec![Chain::new(vec![Term::Match(Pat::Bind(b.clone()))]), Chain::new(vec![
+                    pair(vec![Term::Access(Src::Param, base_acc.clone())], vec![lit_int(3)]),
+                    builtin("integer_compare"),
+                    Term::Match(Pat::Lit(Lit::Int(1))),
+                ])],
+                cons: Some(vec![Chain::new(rec_terms.clone())]),
+            });
+        }
+        gbranches.push(Branch { cond: vec![Chain::new(rec_terms)], cons: None });
+        let g = self.var_name(&env, &caps);
+        steps.push(Chain { pat: Some(Pat::Bind(g.clone())), terms: vec![Term::Fn { param: gp.clone(), body: Some(Expr { branches: gbranches }) }] });
+        env.bind(&g, Ty::Fn(Box::new(gp.clone()), Box::new(Ty::Int)), St::Definite);
+        // F: captures g plus a DIFFERENT number of locals; tail-calls g by name
+        let mut fcaps = caps.clone();
+        self.rng.shuffle(&mut fcaps);
+        let nf = self.rng.usize(fcaps.len() + 1);
+        fcaps.truncate(nf);
+        let mut sum: Vec<Term> = vec![Term::Access(Src::Param, vec![])];
+        for c in &fcaps {
+            // fold the captures into a small argument: ($ + c) mod 5
+            sum = vec![pair(sum, vec![Term::Access(Src::Var(c.clone()), vec![])]), builtin("integer_add")];
+        }
+        let small = vec![pair(sum, vec![lit_int(5)]), builtin("integer_modulo")];
+        let fterms = if tuple_param {
+            vec![pair(small, vec![lit_int(self.rng.range(0, 9))]), Term::Tail(Some((g.clone(), vec![])))]
+        } else {
+            let mut t = small;
+            t.push(Term::Tail(Some((g.clone(), vec![]))));
+            t
+        };
+        let f = self.var_name(&env, &[g.clone()]);
+        // optionally a middle function: f ^-> m ^-> g (chained named tail calls)
+        let mut target = f.clone();
+        steps.push(Chain {
+            pat: Some(Pat::Bind(f.clone())),
+            terms: vec![Term::Fn { param: Ty::Int, body: Some(Expr { branches: vec![Branch { cond: vec![Chain::new(fterms)], cons: None }] }) }],
+        });
+        env.bind(&f, Ty::Fn(Box::new(Ty::Int), Box::new(Ty::Int)), St::Definite);
+        if self.chance(1, 3) {
+            let m = self.var_name(&env, &[g.clone(), f.clone()]);
+            let extra: Vec<Term> = caps.iter().take(1).map(|c| Term::Access(Src::Var(c.clone()), vec![])).collect();
+            let mut body = vec![pair(vec![pair(vec![Term::Access(Src::Param, vec![])], if extra.is_empty() { vec![lit_int(1)] } else { extra }), builtin("integer_add")], vec![lit_int(4)]), builtin("integer_modulo")];
+            body.push(Term::Tail(Some((f.clone(), vec![]))));
+            steps.push(Chain {
+                pat: Some(Pat::Bind(m.clone())),
+                terms: vec![Term::Fn { param: Ty::Int, body: Some(Expr { branches: vec![Branch { cond: vec![Chain::new(body)], cons: None }] }) }],
+            });
+            target = m;
+        }
+        let _ = cx;
+        // call it (twice, different arguments), observe
+        let a1 = self.rng.range(0, 9);
+        let a2 = self.rng.range(0, 9);
+        steps.push(Chain::new(vec![Term::Tuple(
+            TupName::Anon,
+            vec![
+                Field::Val(None, Chain::new(vec![lit_int(a1), Term::Access(Src::Var(target.clone()), vec![])])),
+                Field::Val(None, Chain::new(vec![lit_int(a2), Term::Access(Src::Var(target.clone()), vec![])])),
+            ],
+        )]));
+        self.feat("probe-tail-chain");
+        Program { steps }
+    }
+
     pub fn program(&mut self) -> Program {
+        if self.chance(1, 16) {
+            return self.tail_chain_program();
+        }
         self.budget = 4 + self.rng.below(12) as i32;
         let mut env = Env::default();
         let cx = Cx { param: None, rec: false };
@@ -383,11 +510,11 @@ impl Gen {
             let outer: Vec<Var> = env.readable().into_iter().filter(|v| !v.ty.top_fn()).collect();
             if !outer.is_empty() {
                 let x = outer[self.rng.usize(outer.len())].clone();
-                let (v, _) = self.gen_lit();
+                let (v, vty) = self.gen_lit();
                 let (w, wty) = self.gen_lit();
-                if !wty.is_nil() {
+                if !wty.is_nil() && !vty.is_nil() {
                     let mut steps = vec![Chain::new(vec![v, Term::Match(Pat::Bind(x.name.clone()))])];
-                    if self.chance(1, 2) {
+                    let ty = if self.chance(1, 2) {
                         // read the shadowing binding inside
                         steps.push(Chain::new(vec![Term::Tuple(
                             TupName::Anon,
@@ -396,24 +523,16 @@ impl Gen {
                                 Field::Val(None, Chain::new(vec![w])),
                             ],
                         )]));
+                        Ty::Tup(None, vec![(None, vty), (None, wty)])
                     } else {
                         steps.push(Chain::new(vec![w]));
-                    }
-                    let ty = if steps.len() == 2 && matches!(steps[1].terms[0], Term::Tuple(..)) {
-                        // [x, w] — x has the literal's type, irrelevant to what follows
-                        Ty::Tup(None, vec![(None, Ty::Int), (None, Ty::Int)])
-                    } else {
                         wty
                     };
-                    let _ = ty;
                     self.feat("scope-probe-block-step");
+                    // the block is the step's ONLY term (that is what `normalize_blocks` may lift)
                     let blk = Term::Block(Expr { branches: vec![Branch { cond: steps, cons: None }] });
-                    // the step's value is consumed by nothing type-sensitive: bind it away
-                    let name = self.var_name(env, &[x.name.clone()]);
-                    let chain = Chain { pat: None, terms: vec![blk, Term::Match(Pat::Bind(name.clone()))] };
-                    // type of the bound value is not tracked precisely: mark it dead (never read)
-                    env.bind(&name, Ty::nil(), St::Dead);
-                    return (chain, Ty::ok(), vec![], false);
+                    env.kill_pending();
+                    return (Chain::new(vec![blk]), ty, vec![], false);
                 }
             }
         }
@@ -661,6 +780,11 @@ impl Gen {
                 (vec![Term::Match(pat)], vty, None)
             }
             "tuple" => {
+                if self.chance(1, 5) {
+                    if let Some((ts, ty)) = self.gen_spread_tuple(env, tin, d, cx) {
+                        return (ts, ty, None);
+                    }
+                }
                 let (ts, ty) = self.gen_tuple(env, tin, d, cx);
                 (ts, ty, None)
             }
@@ -788,6 +912,91 @@ impl Gen {
         }
         self.feat("tuple");
         (vec![Term::Tuple(name.clone().map(TupName::Named).unwrap_or(TupName::Anon), fields)], Ty::Tup(name, ftys))
+    }
+
+    /// a tuple built with spreads: `[...a, y: 3]`, `a[..., y: 3]`, `~[..., y: 2]`, `B[...]`, `[w: 0, ...a, ...b]`
+    fn gen_spread_tuple(&mut self, env: &mut Env, tin: &Ty, d: u32, cx: &Cx) -> Option<(Vec<Term>, Ty)> {
+        let mut sources: Vec<(Option<String>, Ty)> = env
+            .readable()
+            .into_iter()
+            .filter(|v| matches!(&v.ty, Ty::Tup(_, fs) if !fs.is_empty()))
+            .map(|v| (Some(v.name.clone()), v.ty.clone()))
+            .collect();
+        if matches!(tin, Ty::Tup(_, fs) if !fs.is_empty()) {
+            sources.push((None, tin.clone()));
+            sources.push((None, tin.clone()));
+        }
+        if sources.is_empty() {
+            return None;
+        }
+        let first = sources[self.rng.usize(sources.len())].clone();
+        let mut fields: Vec<Field> = vec![];
+        let mut ftys: Vec<(Option<String>, Ty)> = vec![];
+        let mut inherited: Option<Option<String>> = None;
+        let add_spread = |src: &(Option<String>, Ty), fields: &mut Vec<Field>, ftys: &mut Vec<(Option<String>, Ty)>, inh: &mut Option<Option<String>>| {
+            let Ty::Tup(n, sfs) = &src.1 else { return };
+            if inh.is_none() {
+                *inh = Some(n.clone());
+            }
+            for (l, t) in sfs {
+                set_or_append(ftys, l.clone(), t.clone());
+            }
+            fields.push(Field::Spread(src.0.clone()));
+        };
+        let name = match self.rng.below(4) {
+            0 => TupName::Inherit,
+            1 => TupName::Named(TUPLE_NAMES[self.rng.usize(4)].to_string()),
+            _ => TupName::Anon,
+        };
+        // a leading explicit field only when the name is not inherited
+        let mut used_labels: Vec<String> = vec![];
+        let explicit = |g: &mut Gen, env: &mut Env, fields: &mut Vec<Field>, ftys: &mut Vec<(Option<String>, Ty)>, used: &mut Vec<String>| {
+            let existing: Vec<String> = ftys.iter().filter_map(|f| f.0.clone()).filter(|l| !used.contains(l)).collect();
+            let label = if !existing.is_empty() && g.chance(1, 2) {
+                Some(existing[g.rng.usize(existing.len())].clone())
+            } else if g.chance(2, 3) {
+                let l = LABELS[g.rng.usize(LABELS.len())].to_string();
+                if used.contains(&l) { None } else { Some(l) }
+            } else {
+                None
+            };
+            if let Some(l) = &label {
+                used.push(l.clone());
+            }
+            env.kill_pending();
+            // (open finding: fields of a spread tuple do not receive the flow — only `~` reaches it)
+            let (ts, ty) = if g.chance(1, 3) && !tin.top_fn() {
+                (vec![Term::Access(Src::Ripple, vec![])], tin.clone())
+            } else {
+                g.fresh_start = true;
+                let (ts, ty, _) = g.gen_term(env, tin, d.saturating_sub(1), false, cx);
+                g.fresh_start = false;
+                (ts, ty)
+            };
+            env.kill_pending();
+            let ty = if ty.is_never() { Ty::Int } else { ty };
+            fields.push(Field::Val(label.clone(), Chain::new(ts)));
+            set_or_append(ftys, label, ty);
+        };
+        if !matches!(name, TupName::Inherit) && self.chance(1, 3) {
+            explicit(self, env, &mut fields, &mut ftys, &mut used_labels);
+        }
+        add_spread(&first, &mut fields, &mut ftys, &mut inherited);
+        if self.chance(1, 3) {
+            let second = sources[self.rng.usize(sources.len())].clone();
+            add_spread(&second, &mut fields, &mut ftys, &mut inherited);
+        }
+        let extra = self.rng.usize(3);
+        for _ in 0..extra {
+            explicit(self, env, &mut fields, &mut ftys, &mut used_labels);
+        }
+        let n = match &name {
+            TupName::Anon => None,
+            TupName::Named(n) => Some(n.clone()),
+            TupName::Inherit => inherited.clone().flatten(),
+        };
+        self.feat("spread");
+        Some((vec![Term::Tuple(name, fields)], Ty::Tup(n, ftys)))
     }
 
     /// `[A, B] __integer_op__`
@@ -1080,7 +1289,102 @@ impl Gen {
         (cond, cty, benv)
     }
 
+    /// Fall-through probe: a bodiless branch that BINDS and then fails at run time (value-dependent
+    /// guard), followed by a branch that stores a local (its own binding or a nested block's
+    /// parameter) and reads it back — the later branch must not see the earlier one's slots.
+    fn fallthrough_probe(&mut self, env: &Env, tin: &Ty) -> Option<(Expr, Ty)> {
+        let x = self.var_name(env, &[]);
+        let y = self.var_name(env, &[x.clone()]);
+        let z = self.var_name(env, &[x.clone(), y.clone()]);
+        // branch 1 (bodiless): bind, then a guard that fails for most values
+        let k1 = self.rng.range(20, 99);
+        let b1 = if *tin == Ty::Int && self.chance(1, 2) {
+            // =x, [x, k] compare =0        (fails unless the parameter is k)
+            vec![
+                Chain::new(vec![Term::Match(Pat::Bind(x.clone()))]),
+                Chain::new(vec![pair(vec![Term::Access(Src::Var(x.clone()), vec![])], vec![lit_int(k1)]), builtin("integer_compare"), Term::Match(Pat::Lit(Lit::Int(0)))]),
+            ]
+        } else {
+            // x = k1, y = k2, [x, y] compare =0   (two bindings, then fails)
+            vec![
+                Chain { pat: Some(Pat::Bind(x.clone())), terms: vec![lit_int(k1)] },
+                Chain { pat: Some(Pat::Bind(y.clone())), terms: vec![lit_int(k1 + 1)] },
+                Chain::new(vec![pair(vec![Term::Access(Src::Var(x.clone()), vec![])], vec![Term::Access(Src::Var(y.clone()), vec![])]), builtin("integer_compare"), Term::Match(Pat::Lit(Lit::Int(0)))]),
+            ]
+        };
+        // optional second failing bodiless branch: a tuple pattern with binders on a non-tuple-ish value
+        let mut branches = vec![Branch { cond: b1, cons: None }];
+        if self.chance(1, 3) {
+            let w = self.var_name(env, &[x.clone(), y.clone(), z.clone()]);
+            branches.push(Branch {
+                cond: vec![Chain::new(vec![
+                    pair(vec![lit_int(1)], vec![lit_int(2)]),
+                    Term::Match(Pat::Tup(None, vec![(None, Pat::Bind(w.clone())), (None, Pat::Lit(Lit::Int(3)))])),
+                ])],
+                cons: None,
+            });
+        }
+        // later branch: stores a local and reads it back
+        let k2 = self.rng.range(100, 199);
+        let (later, ty) = match self.rng.below(3) {
+            0 => (
+                // z = k2, [z, k2]
+                Branch {
+                    cond: vec![
+                        Chain { pat: Some(Pat::Bind(z.clone())), terms: vec![lit_int(k2)] },
+                        Chain::new(vec![pair(vec![Term::Access(Src::Var(z.clone()), vec![])], vec![lit_int(k2)])]),
+                    ],
+                    cons: None,
+                },
+                Ty::Tup(None, vec![(None, Ty::Int), (None, Ty::Int)]),
+            ),
+            1 => (
+                // k2 { =z => [z] }     (nested block: its parameter slot)
+                Branch {
+                    cond: vec![Chain::new(vec![
+                        lit_int(k2),
+                        Term::Block(Expr {
+                            branches: vec![Branch {
+                                cond: vec![Chain::new(vec![Term::Match(Pat::Bind(z.clone()))])],
+                                cons: Some(vec![Chain::new(vec![Term::Tuple(
+                                    TupName::Anon,
+                                    vec![Field::Val(None, Chain::new(vec![Term::Access(Src::Var(z.clone()), vec![])]))],
+                                )])]),
+                            }],
+                        }),
+                    ])],
+                    cons: None,
+                },
+                Ty::Tup(None, vec![(None, Ty::Int)]),
+            ),
+            _ => (
+                // [k2, k2 + 1] =[z, y] => [y, z]
+                Branch {
+                    cond: vec![Chain::new(vec![
+                        pair(vec![lit_int(k2)], vec![lit_int(k2 + 1)]),
+                        Term::Match(Pat::Tup(None, vec![(None, Pat::Bind(z.clone())), (None, Pat::Bind(y.clone()))])),
+                    ])],
+                    cons: Some(vec![Chain::new(vec![pair(
+                        vec![Term::Access(Src::Var(y.clone()), vec![])],
+                        vec![Term::Access(Src::Var(z.clone()), vec![])],
+                    )])]),
+                },
+                Ty::Tup(None, vec![(None, Ty::Int), (None, Ty::Int)]),
+            ),
+        };
+        branches.push(later);
+        let ty = if branches.last().map(|b| b.cons.is_some()).unwrap_or(false) { ty.with_nil() } else { ty };
+        self.feat("probe-fallthrough-after-binding-branch");
+        // the last branch's condition can fail only in the third form (never: the pattern is exact)
+        Some((Expr { branches }, ty))
+    }
+
     fn gen_branches(&mut self, env: &Env, tin: &Ty, d: u32, tail: bool, cx: &Cx, n: usize) -> (Expr, Ty) {
+        if !tail && !cx.rec && self.chance(1, 14) {
+            if let Some(r) = self.fallthrough_probe(env, tin) {
+                return r;
+            }
+        }
         let mut branches = vec![];
         let mut types: Vec<Ty> = vec![];
         let mut exhaustive = false;
